@@ -8,6 +8,7 @@ use proptest::prelude::*;
 use serde::{Deserialize, Serialize};
 use serde_json::json;
 use std::collections::BTreeSet;
+use solana_program::pubkey::Pubkey;
 use whirlpool::math::sqrt_price_from_tick_index;
 
 #[derive(Clone, Debug, Serialize, Deserialize, Hash, PartialEq, Eq)]
@@ -29,7 +30,15 @@ pub enum LifeOp {
     OpenBundled { bundle: u8, index: u16, lower: TickSel, upper: TickSel },
     DeleteBundle { bundle: u8 },
     Increase { pos: u16, #[serde(with = "crate::ser::u128s")] liquidity: u128 },
-    Decrease { pos: u16, all: bool },
+    Decrease {
+        pos: u16,
+        all: bool,
+        /// signed by the position token's approved delegate (when there is one) instead of the owner
+        #[serde(default)]
+        by_delegate: bool,
+    },
+    /// the owner approves another user (or itself) as delegate of the position token, amount 1 (token program Approve)
+    Approve { pos: u16, to: u8 },
     CollectFees { pos: u16 },
     CollectReward { pos: u16 },
     UpdateFees { pos: u16 },
@@ -37,7 +46,13 @@ pub enum LifeOp {
     AdvanceClock(u16),
     Close { pos: u16 },
     Reset { pos: u16, lower: TickSel, upper: TickSel },
-    Reposition { pos: u16, lower: TickSel, upper: TickSel },
+    Reposition {
+        pos: u16,
+        lower: TickSel,
+        upper: TickSel,
+        #[serde(default)]
+        by_delegate: bool,
+    },
     Lock { pos: u16 },
     TransferLocked { pos: u16 },
 }
@@ -71,6 +86,25 @@ struct Life {
 }
 
 impl Life {
+    /// the delegate recorded in the position's token account (delegated amount 1), read from the account bytes
+    fn delegate_of(&self, p: usize) -> Option<Pubkey> {
+        let d = self.w.bank.get(&self.w.positions[p].token_account).data;
+        if d.len() < 165 || d[72..76] != [1, 0, 0, 0] || d[121..129] != 1u64.to_le_bytes() {
+            return None;
+        }
+        Some(Pubkey::new_from_array(d[76..108].try_into().unwrap()))
+    }
+
+    /// the position authority of `ix` becomes `who` (a signer) in place of the owner
+    fn sign_as(&self, ix: &mut solana_program::instruction::Instruction, p: usize, who: Pubkey) {
+        let owner = self.w.users[self.w.positions[p].owner].key;
+        for m in ix.accounts.iter_mut() {
+            if m.pubkey == owner && m.is_signer {
+                m.pubkey = who;
+            }
+        }
+    }
+
     fn tick(&self, s: &TickSel, is_lower: bool) -> i32 {
         let tsi = self.ts as i32;
         match s {
@@ -334,7 +368,26 @@ pub fn check_case(c: &LifeCase, l: &mut Local) -> Result<(), String> {
                     l.count(if o.ok() { "increase_on_locked_ok" } else { "increase_on_locked_failed_other_reason" });
                 }
             }
-            LifeOp::Decrease { pos, all } => {
+            LifeOp::Approve { pos, to } => {
+                let open = s.open_idx();
+                if open.is_empty() {
+                    continue;
+                }
+                let p = open[pick(*pos, open.len())];
+                if s.w.positions[p].bundle.is_some() {
+                    continue;
+                }
+                let te = matches!(s.w.positions[p].kind, PosKind::TokenExt | PosKind::TokenExtMeta);
+                let prog = if te { TOKEN22 } else { crate::world::TOKEN };
+                let owner = s.w.users[s.w.positions[p].owner].key;
+                let delegate = s.w.users[s.users[*to as usize % s.users.len()]].key;
+                let ix = spl_token_2022::instruction::approve(&prog, &s.w.positions[p].token_account, &delegate, &owner, &[], 1).map_err(|e| ctx(format!("harness: {e:?}")))?;
+                match s.w.bank.process_native(&ix) {
+                    Ok(_) => l.count(if s.st[p].locked { "delegate_approved_on_locked_position" } else { "delegate_approved" }),
+                    Err(_) => l.count("delegate_approval_refused_by_token_program"),
+                }
+            }
+            LifeOp::Decrease { pos, all, by_delegate } => {
                 let open = s.open_idx();
                 if open.is_empty() {
                     continue;
@@ -342,15 +395,21 @@ pub fn check_case(c: &LifeCase, l: &mut Local) -> Result<(), String> {
                 let p = open[pick(*pos, open.len())];
                 let cur = s.w.position_state(p).map(|x| x.liquidity).unwrap_or(0);
                 let amt = if *all { cur } else { cur / 2 };
-                let ix = s.w.ix_decrease(p, amt, 0, 0, amt % 2 == 0);
+                let mut ix = s.w.ix_decrease(p, amt, 0, 0, amt % 2 == 0);
+                let delegate = if *by_delegate { s.delegate_of(p) } else { None };
+                if let Some(d) = delegate {
+                    s.sign_as(&mut ix, p, d);
+                }
                 let o = s.w.exec(&ix);
                 if s.st[p].locked {
                     lock_or_bundle_ops += 1;
                     predicted_rejections += 1;
                     if o.ok() {
-                        return Err(ctx("liquidity removed from a locked position".into()));
+                        return Err(ctx(format!("liquidity removed from a locked position{}", if delegate.is_some() { " (signed by the position token's delegate)" } else { "" })));
                     }
-                    l.count("decrease_on_locked_rejected");
+                    l.count(if delegate.is_some() { "decrease_on_locked_by_delegate_rejected" } else { "decrease_on_locked_rejected" });
+                } else if delegate.is_some() {
+                    l.count(if o.ok() { "decrease_by_delegate_ok" } else { "decrease_by_delegate_failed" });
                 }
             }
             LifeOp::CollectFees { pos } | LifeOp::UpdateFees { pos } | LifeOp::CollectReward { pos } => {
@@ -465,7 +524,7 @@ pub fn check_case(c: &LifeCase, l: &mut Local) -> Result<(), String> {
                     predicted_rejections += 1;
                 }
             }
-            LifeOp::Reposition { pos, lower, upper } => {
+            LifeOp::Reposition { pos, lower, upper, by_delegate } => {
                 let open = s.open_idx();
                 if open.is_empty() {
                     continue;
@@ -477,15 +536,19 @@ pub fn check_case(c: &LifeCase, l: &mut Local) -> Result<(), String> {
                     s.ensure_array(hi);
                 }
                 let cur = s.w.position_state(p).map(|x| x.liquidity).unwrap_or(0);
-                let ix = s.w.ix_reposition(p, lo, hi, cur.max(1), 0, 0, u64::MAX, u64::MAX);
+                let mut ix = s.w.ix_reposition(p, lo, hi, cur.max(1), 0, 0, u64::MAX, u64::MAX);
+                let delegate = if *by_delegate { s.delegate_of(p) } else { None };
+                if let Some(d) = delegate {
+                    s.sign_as(&mut ix, p, d);
+                }
                 let o = s.w.exec(&ix);
                 if s.st[p].locked {
                     lock_or_bundle_ops += 1;
                     predicted_rejections += 1;
                     if o.ok() {
-                        return Err(ctx("a locked position was re-ranged".into()));
+                        return Err(ctx(format!("a locked position was re-ranged{}", if delegate.is_some() { " (signed by the position token's delegate)" } else { "" })));
                     }
-                    l.count("reposition_on_locked_rejected");
+                    l.count(if delegate.is_some() { "reposition_on_locked_by_delegate_rejected" } else { "reposition_on_locked_rejected" });
                 } else if o.ok() {
                     // re-ranged only to a different valid range (usable in-bounds ticks, lower < upper, the full range on full-range-only pools)
                     let tsi = s.ts as i32;
@@ -631,7 +694,8 @@ fn op_strategy() -> BoxedStrategy<LifeOp> {
         6 => (0u8..3, prop_oneof![8 => 0u16..256, 1 => Just(255u16), 1 => 256u16..300], tick_sel(true), tick_sel(false)).prop_map(|(bundle, index, lower, upper)| LifeOp::OpenBundled { bundle, index, lower, upper }),
         2 => (0u8..3).prop_map(|bundle| LifeOp::DeleteBundle { bundle }),
         10 => (any::<u16>(), prop_oneof![4 => (16u32..50).prop_map(|b| 1u128 << b), 1 => 1u128..1000]).prop_map(|(pos, liquidity)| LifeOp::Increase { pos, liquidity }),
-        6 => (any::<u16>(), any::<bool>()).prop_map(|(pos, all)| LifeOp::Decrease { pos, all }),
+        6 => (any::<u16>(), any::<bool>(), prop_oneof![3 => Just(false), 1 => Just(true)]).prop_map(|(pos, all, by_delegate)| LifeOp::Decrease { pos, all, by_delegate }),
+        3 => (any::<u16>(), 0u8..4).prop_map(|(pos, to)| LifeOp::Approve { pos, to }),
         4 => any::<u16>().prop_map(|pos| LifeOp::CollectFees { pos }),
         3 => any::<u16>().prop_map(|pos| LifeOp::CollectReward { pos }),
         3 => any::<u16>().prop_map(|pos| LifeOp::UpdateFees { pos }),
@@ -639,7 +703,7 @@ fn op_strategy() -> BoxedStrategy<LifeOp> {
         2 => (0u16..5000).prop_map(LifeOp::AdvanceClock),
         8 => any::<u16>().prop_map(|pos| LifeOp::Close { pos }),
         5 => (any::<u16>(), tick_sel(true), tick_sel(false)).prop_map(|(pos, lower, upper)| LifeOp::Reset { pos, lower, upper }),
-        3 => (any::<u16>(), tick_sel(true), tick_sel(false)).prop_map(|(pos, lower, upper)| LifeOp::Reposition { pos, lower, upper }),
+        3 => (any::<u16>(), tick_sel(true), tick_sel(false), prop_oneof![3 => Just(false), 1 => Just(true)]).prop_map(|(pos, lower, upper, by_delegate)| LifeOp::Reposition { pos, lower, upper, by_delegate }),
         6 => any::<u16>().prop_map(|pos| LifeOp::Lock { pos }),
         3 => any::<u16>().prop_map(|pos| LifeOp::TransferLocked { pos }),
     ]
